@@ -8,14 +8,24 @@ func ExtractLicenses(expression string) ([]string, error) {
 		return nil, err
 	}
 
-	expanded := node.expand(true)
+	// collect the licenses from the leaves of the expression tree; going through expand()
+	// would build every combination of ANDed OR expressions first (exponential in their number)
 	licenses := make([]string, 0)
-	allLicenses := flatten(expanded)
-	for _, licenseNode := range allLicenses {
+	for _, licenseNode := range node.leaves(nil) {
 		licenses = append(licenses, *licenseNode.reconstructedLicenseString())
 	}
 
 	licenses = removeDuplicateStrings(licenses)
 
 	return licenses, nil
+}
+
+// leaves appends the license and license reference nodes of the expression tree to result,
+// in the order they appear in the expression.
+func (n *node) leaves(result []*node) []*node {
+	if n.isExpression() {
+		result = n.left().leaves(result)
+		return n.right().leaves(result)
+	}
+	return append(result, n)
 }
